@@ -56,8 +56,12 @@ package grammar
 //@ ensures [C09,C01,C02,C06] forall i int :: 0 <= i && i < old(len(IC.Items)) ==> (exists j int :: 0 <= j && j < len(IC.Items) && IC.Items[j] == old(IC.Items)[i])
 //@ ensures [C09,C01,C02,C06] forall j int :: 0 <= j && j < len(IC.Items) ==> (exists i int :: 0 <= i && i < old(len(IC.Items)) && IC.Items[j] == old(IC.Items)[i]) ||
 //@     (IC.Items[j].Dot == 0 && (exists i int :: 0 <= i && i < len(IC.Items) && needs(g, *IC.Items[i], IC.Items[j].RuleIndex)))
+// nothing is ever removed from the set
+//@ ensures [C09,C01,C02,C06] forall it item.Item :: {item.inIC(IC, it)} old(item.inIC(IC, it)) ==> item.inIC(IC, it)
 //@ modifies IC.Items, IC.itemMap
 //@ allocates item.Item
+//@ loop 0: invariant forall it item.Item :: {item.inIC(IC, it)} old(item.inIC(IC, it)) ==> item.inIC(IC, it)
+//@ loop 2: invariant forall it item.Item :: {item.inIC(IC, it)} old(item.inIC(IC, it)) ==> item.inIC(IC, it)
 //@ loop 0: invariant okItems(g, IC) && unchanged(item.Item)
 //@ loop 0: invariant item.repIC(IC)
 //@ loop 0: invariant len(IC.Items) >= old(len(IC.Items))
@@ -181,3 +185,24 @@ func spec_itemStr(g *Grammar, r int, d int) string { panic("spec") }
 //@ may_panic "too manay states!"
 //@ loop 0: invariant [C13] 0 <= i && g.LR0 != nil && len(g.LR0.LR0Closure) < 2000
 //@ loop 0: decreases [C13] 2000 - i
+// ---------------------------------------------------------------------------------------------
+// C09: the transitions of one state, step by step (the global statement - exactly one transition per symbol after a dot,
+// target == closure of the advanced items - is covered by the bounded LR(1)-merge stand-in; what is proved here are the
+// local steps it is made of):
+//   * an item with X after the dot contributes its ADVANCED item (same rule, dot + 1) to the target on X - whether that
+//     target is created for it or already pending - and the target is then closed (ComputeIClosure: least closed superset);
+//   * a new goto entry is created on exactly that X, not yet numbered, pointing to the new pending set;
+//   * every pending target is resolved to the index of a state with exactly the same item list (an existing one, else
+//     the set itself appended as a new state), and the pending reference is cleared.
+//@ def dotSym(g *Grammar, it *item.Item) = g.ProductoinRules[it.RuleIndex].RighPart[it.Dot]
+//@ def adv(it *item.Item) = item.Item{RuleIndex: it.RuleIndex, Dot: it.Dot + 1}
+
+//@ func (*Grammar).ComputeGotoItemNoneRec
+//@ props_tagged_only C09 C01 C02 C06
+//@ requires wfRules(g) && okItems(g, IC) && allocated(IC) && g.LR0 != nil && lr.wfLR0(g.LR0)
+//@ before_stmt [C09,C01,C02,C06] "if goToPointer := IC.FindItemClosure(sy)" sy == dotSym(g, it)
+//@ before_stmt [C09,C01,C02,C06] "g.ComputeIClosure(ExistIC)" item.inIC(ExistIC, adv(it)) || (len(ExistIC.Items) > 0 && *ExistIC.Items[len(ExistIC.Items)-1] == adv(it))
+//@ before_stmt [C09,C01,C02,C06] "g.ComputeIClosure(newIC)" item.inIC(newIC, adv(it)) && len(newIC.Items) == 1 && *newIC.Items[0] == adv(it)
+//@ before_stmt [C09,C01,C02,C06] "change += IC.InsertGoTO(newGoto)" newGoto.Sym == sy && newGoto.ItemCl == -1 && newGoto.ICref == newIC && item.inIC(newIC, adv(it))
+//@ loop 1: end_of_body [C09,C01,C02,C06] IC.GoTo[idx1].ICref == nil && 0 <= IC.GoTo[idx1].ItemCl && IC.GoTo[idx1].ItemCl < len(g.LR0.LR0Closure) &&
+//@     lr.sameItems(g.LR0.LR0Closure[IC.GoTo[idx1].ItemCl], at_head(IC.GoTo[idx1].ICref))
